@@ -102,9 +102,12 @@ impl Counter {
     }
 
     /// Decrement counter by 1 and return true if crossing limit.
+    ///
+    /// The counter is biased by one (see `new` and `total`), so a worker at its limit has a raw
+    /// value of `limit + 1`; the release that takes it below the limit is the one to report.
     #[inline(always)]
     pub(crate) fn dec(&self) -> bool {
-        self.counter.fetch_sub(1, Ordering::Relaxed) == self.limit
+        self.counter.fetch_sub(1, Ordering::Relaxed) - 1 == self.limit
     }
 
     pub(crate) fn total(&self) -> usize {
